@@ -422,6 +422,11 @@ def raw_programs():
     out["float.int-representation"] = ("export function f(int n) -> float { float x = 7; float y; float z; for (int i = 0; i < n; ++i) { y++; } z = (y + 2); return ((x / z) + (y / 2)); }", {"n": "0..3"})
     out["uint.param-literal"] = ("function g(uint u) -> uint { return (u + 10); } export function f(int a) -> uint { return g(7); }", {"a": "int"})
     out["cast.int-to-float-arg"] = ("function g(float u) -> float { return (u / 2); } export function f(int a) -> float { return (g(a) + g(3)); }", {"a": "int"})
+    # assignments used as values, constants stored to parameters under optimize (third element: the expected result as a function of the inputs)
+    out["assign.chained"] = ("export function f(int a) -> int { int b; int c; b = c = a; return ((b * 10) + c); }", {"a": "int"}, lambda a: a * 11)
+    out["assign.in-condition"] = ("export function f(int a) -> int { int b; if (b = a) { return (b + 100); } return b; }", {"a": "0..3"}, None)
+    out["const-cast.store-arg"] = ("export function f(float a) -> float { a = float(1); return (a + 0.5); }", {"a": "float"}, lambda a: 1.5)
+    out["const-cast.store-arg-int"] = ("export function f(float a, int b) -> float { a = 2; b = 3; return (a + b); }", {"a": "float", "b": "int"}, lambda a, b: 5)
     out["call.vector-arg"] = ("function g(float2 v) -> float { return (v.x + v.y); } export function f(float2 p) -> float { float2 q; q = p; q[0] = 1.0; return (g(q) + g(p)); }", {"p": "float2"})
     return out
 
@@ -475,14 +480,16 @@ def e2e_opt_vs_plain(R):
     """Each program: compiled with and without `optimize`, both accepted, same result and same globals for all inputs; neither run fails."""
     import copy
     fn = "nsl.Compiler::Compiler.Compile"
-    for name, (src, decl) in sorted(raw_programs().items()):
+    for name, spec in sorted(raw_programs().items()):
+        src, decl = spec[0], spec[1]
+        wantf = spec[2] if len(spec) > 2 else None
         rp, excp = vs.program(src, {})
         ro, exco = vs.program(src, {"optimize": True})
         if rp is None or ro is None:
             R.check(f"E2E.opt-vs-plain[{name}]", fn, False, detail=f"rejected: plain {excp!r}, optimised {exco!r}\n{src}")
             continue
 
-        def run(ctx, rp=rp, ro=ro, decl=decl):
+        def run(ctx, rp=rp, ro=ro, decl=decl, wantf=wantf):
             kw, gl = _raw_inputs(ctx, decl)
             outs = []
             for r in (rp, ro):
@@ -493,6 +500,8 @@ def e2e_opt_vs_plain(R):
             goals = [("result", _eqv(outs[1][0], outs[0][0]), "optimised result differs from the unoptimised one")]
             for x in gl:
                 goals.append(("globals", _eqv(outs[1][1][x], outs[0][1][x]), f"global {x}"))
+            if wantf is not None:
+                goals.append(("expected-value", _eqv(outs[0][0], wantf(**kw)), "the unoptimised result is not the value the source prescribes"))
             return goals
 
         def replay(model, clause, src=src, decl=decl):
